@@ -16,7 +16,7 @@ func init() {
 
 func c01(r *core.Run) {
 	r.Expl = "C01 (blocks read back as written): decides structural necessary conditions only — (1) the write-offset accounting and commit protocol of GPFile.writeBlock on every control-flow path (rollback by seek+reset between two emitting attempts, flush before commit, recorded Len/offset advance = count of the last emitting call, recorded encoder type = emitting encoder, RawLen = input length, duplicate test before AddBlock); (2) GPFile.open seeks to the committed offset before creating the writer, ModeWrite has neither O_TRUNC nor O_APPEND; (3) GPDir.Marshal and GPDir.Unmarshal agree on offset, width, role, stride and loop structure of every stored field, and the size constants equal the sizes implied by the code; (4) WriteBlocks touches the summaries exactly once after all columns succeeded and the Add methods cover every field; (5) ReadBlockAtIndex returns data only after the length check, with the decoder chosen from the block's type. NOT decided: that arbitrary byte contents survive (compression libraries trusted), behaviour over histories of sessions, numeric equality of totals."
-	r.Floor = 60
+	r.Floor = 50
 	p := r.Prog("cgo")
 	r.Rules = append(r.Rules, "writeBlock-trace: path-enumerating automaton over emit/seek/reset/flush/AddBlock/offset-update events",
 		"open-resume", "codec-layout: serialisation signature of Marshal vs Unmarshal + size constants", "decode-guards", "narrowing-guarded",
@@ -33,7 +33,7 @@ func c01(r *core.Run) {
 
 func c03(r *core.Run) {
 	r.Expl = "C03 (day metadata survives reopening): decides (1) every narrowing conversion stored by GPDir.Marshal is dominated by range guards on every side its source type can exceed (signed timestamp delta: upper and lower); (2) GPDir.Unmarshal's two size guards exist, use constants that cover the bytes the decoder consumes (derived from the code), reject with an error and dominate every access and allocation; writer/reader layout agreement; (3) the duplicate-timestamp test dominates AddBlock in writeBlock; (4) GPDir.Open propagates Unmarshal errors. NOT decided: equality of re-read histories as values, rejection of every malformed byte string, >4GiB blocks."
-	r.Floor = 45
+	r.Floor = 36
 	p := r.Prog("cgo")
 	r.Rules = append(r.Rules, "codec-layout", "decode-guards", "narrowing-guarded", "writeBlock-trace(duplicate-check)", "storage-errors(Open)")
 	ruleCodecLayout(r, p)
